@@ -60,8 +60,9 @@ def model_case(kind, ref, pred, ri, pi):
     rm = (ref == ri) if ri is not None else ref
     pm = np.isin(pred, pi if isinstance(pi, list) else [pi]) if ri is not None else pred
     sk = skeletonize if ref.ndim == 2 else skeletonize_3d
-    sr = (np.asarray(sk(rm)) != 0).ravel().tolist()
-    sp = (np.asarray(sk(pm)) != 0).ravel().tolist()
+    # the skeleton oracle (skimage) is applied to C-contiguous copies: the skeleton is a function of the logical mask
+    sr = (np.asarray(sk(np.ascontiguousarray(rm))) != 0).ravel().tolist()
+    sp = (np.asarray(sk(np.ascontiguousarray(pm))) != 0).ravel().tolist()
     rb = np.asarray(rm).astype(np.int64).ravel().tolist()
     pb = np.asarray(pm).astype(np.int64).ravel().tolist()
     return [3, [], [[a, b, int(c), int(d)] for a, b, c, d in zip(rb, pb, sr, sp)]]
@@ -118,8 +119,14 @@ def gen_cases(ctx):
             (rng.choice(allm), rng.choice(allm)) for _ in range(ctx.scale(150, 1500))]
         for a, b in pairs:
             dt = rng.choice(DTYPES + ["bool"])
+            ra, pa = np.array(a, dtype=dt).reshape(shape), np.array(b, dtype=dt).reshape(shape)
+            lay = rng.choice(["C", "C", "C", "refF", "predF", "bothF"])
+            if lay in ("refF", "bothF"):
+                ra = np.asfortranarray(ra)
+            if lay in ("predF", "bothF"):
+                pa = np.asfortranarray(pa)
             for kind in KINDS:
-                cases.append((kind, np.array(a, dtype=dt).reshape(shape), np.array(b, dtype=dt).reshape(shape), None, None))
+                cases.append((kind, ra, pa, None, None))
     # random volumes with selection
     for _ in range(ctx.scale(200, 3000)):
         nd = rng.choice([1, 2, 3])
@@ -138,6 +145,28 @@ def gen_cases(ctx):
         ri = int(rng.choice([hi, 2 * hi, 3 * hi]))
         pi = rng.choice([int(hi), [int(hi), int(2 * hi)], [int(3 * hi)], [int(2 * hi), int(hi), int(4 * hi)]])
         kinds = KINDS if nd >= 2 else KINDS[:3]
+        # label indices that are absent because they exceed the array dtype (must select nothing, not alias by wrap-around)
+        if np.dtype(dt).itemsize == 1 and rng.random() < 0.25:
+            off = 256
+            which = rng.choice(["pi", "ri", "pi+"])
+            if which == "pi":
+                pi = [int(off + hi)] if rng.random() < 0.5 else int(off + 2 * hi)
+            elif which == "ri":
+                ri = int(off + hi)
+            else:
+                pi = [int(hi), int(off + 2 * hi)]
+        # memory layout is not part of the logical array: Fortran order / transposed storage of ONE of the two arrays
+        if nd >= 2 and rng.random() < 0.3:
+            lay = rng.choice(["refF", "predF", "bothF", "pred-strided"])
+            if lay in ("refF", "bothF"):
+                ref = np.asfortranarray(ref)
+            if lay in ("predF", "bothF"):
+                pred = np.asfortranarray(pred)
+            if lay == "pred-strided":
+                big = np.zeros(tuple(2 * x for x in pred.shape), pred.dtype)
+                view = big[tuple(slice(0, None, 2) for _ in pred.shape)]
+                view[...] = pred
+                pred = view
         cases.append((rng.choice(kinds), ref, pred, ri, pi))
     return cases
 
